@@ -45,6 +45,14 @@ def build_one(args):
     ev["ct_digests"] = {m.group(1): m.group(2) for m in re.finditer(r"^DIGESTD (\d+) ([0-9a-f]+)$", p.stdout, re.M)}
     if not ev["probe_ok"]:
         ev["probe_error"] = p.stdout[-800:]
+    # 3b. a freestanding no_std consumer with its own panic handler must compile against this configuration
+    NOSTD = os.path.join(vlib.HARNESS, "nostdprobe")
+    if not os.path.exists(os.path.join(NOSTD, "Cargo.lock")):
+        shutil.copy(os.path.join(vlib.REPO, "Cargo.lock"), os.path.join(NOSTD, "Cargo.lock"))
+    q = sh(["cargo", "build", "--offline", "--quiet", "--manifest-path", os.path.join(NOSTD, "Cargo.toml"), "--features", f, "--target-dir", tdir + "-nostd"])
+    ev["nostd_consumer_ok"] = q.returncode == 0
+    if q.returncode != 0:
+        ev["nostd_error"] = "\n".join(l for l in q.stdout.splitlines() if l.startswith("error") or "lang item" in l or "first defined" in l)[:600]
     # 4. negative probes: an item behind a gate that is off must not exist
     neg = {}
     cand = [("neg-44", not cfg["sets"][0]), ("neg-65", not cfg["sets"][1]), ("neg-87", not cfg["sets"][2]), ("neg-rng", not cfg["rng"]), ("neg-dudect", not cfg["dudect"])]
@@ -85,6 +93,7 @@ def run(tier, seed):
         evs = [e for part in ex.map(worker, range(nw)) for e in part]
     for d in tdirs:
         shutil.rmtree(d, ignore_errors=True)
+        shutil.rmtree(d + "-nostd", ignore_errors=True)
     trace = os.path.join(chk.workdir, "features.ndjson")
     with open(trace, "w") as f:
         for e in evs:
@@ -103,7 +112,7 @@ def run(tier, seed):
             refd = default.get(((1, 1, 1), True, True))
             okd = ref is not None and all(e["digests"].get(k) == ref["digests"].get(k) for k in e["digests"]) and \
                 (not e["dudect"] or (refd is not None and e["ct_digests"] and all(e["ct_digests"].get(k) == refd["ct_digests"].get(k) for k in e["ct_digests"])))
-            ok = e["lib_ok"] and e["warnings"] == 0 and e["std_symbols"] == 0 and e["probe_ok"] and okd and all(v == "rejected" for v in e["negative"].values()) \
+            ok = e["lib_ok"] and e["warnings"] == 0 and e["std_symbols"] == 0 and e["nostd_consumer_ok"] and e["probe_ok"] and okd and all(v == "rejected" for v in e["negative"].values()) \
                 and set(e["digests"]) == {n for n, on in zip(("44", "65", "87"), e["sets"]) if on}
             if not ok:
                 bad += 1
@@ -114,7 +123,7 @@ def run(tier, seed):
     chk.cov["evaluations"] = len(evs)
     chk.cov["distinct_nontrivial"] = len({e["features"] for e in evs})
     chk.cov["rule"] = ("all 7 non-empty subsets of {ml-dsa-44, ml-dsa-65, ml-dsa-87} x default-rng on/off x dudect on/off, enumerated by TLC from MC_Features; each: library build with warnings denied, "
-                       "no undefined std symbols in the rlib, probe referencing exactly the model's items, behaviour digest per enabled set equal to the full configuration's, negative probes rejected")
+                       "no undefined std symbols in the rlib, a freestanding no_std consumer (own panic handler) compiles, probe referencing exactly the model's items, behaviour digest per enabled set equal to the full configuration's, negative probes rejected")
     for e in evs[:3]:
         chk.sample({k: v for k, v in e.items() if k != "ev"})
     chk.cov["exhaustive"] = True
